@@ -11,6 +11,19 @@ Rows (see lean/TypedpyModel/Sem/WorldTables.lean, `RegistryRec`):
   * in-place mutation of a container that is a *definition attribute* of a class (`_required`, `_fields`,
     `_field_by_name`, …) obtained without copying, directly or through a callee that mutates its parameter.
 
+  * attributes written onto FIELD INSTANCES by methods other than the constructor (`self.x = …`,
+    `setattr(option, "x", …)` in `__set__` / `serialize` / …): a Field object is shared by a class and every class
+    derived from it, so the stored value must be a function of the field's own definition; a value that depends
+    on what the method was called with (the value being validated, the instance) is state carried from one use
+    to the next — and from one class to another (`useValue`);
+  * mutable DEFAULT ARGUMENTS that the function mutates, returns or stores (one object for every call);
+  * CLOSURE CELLS: a mutable local of a function that a nested function it returns / installs writes to (the
+    memo of a hand-written caching decorator), `nonlocal` rebinding;
+  * class-level switches (`Structure._fail_fast`, …) and `*Defaults` attributes are configuration only while
+    nothing but explicit setters (`set_*`) write them;
+  * global configuration READ while generating something that is then installed on a class or put into a
+    registry (`configCapture`): the value in effect at generation time is frozen into per-class state.
+
 The key kind of a dict registry is classified from the expressions used in `REG[key] = …`.
 This is a narrow idiom matcher, not a Python semantics: state the matcher cannot see is not modelled
 (the property is claimed partial; the fresh-interpreter comparison is the backstop).
@@ -82,11 +95,14 @@ class Func:
             f = f.parent
         return p
 
-    def body_nodes(self):
-        """nodes of this function, not descending into nested function definitions"""
+    def body_nodes(self, strict=False):
+        """nodes of this function, not descending into nested function definitions (`strict`: not even into
+        the ones that are statements of the body itself)"""
         stack = list(self.node.body)
         while stack:
             n = stack.pop()
+            if strict and isinstance(n, (ast.FunctionDef, ast.AsyncFunctionDef, ast.Lambda)):
+                continue
             yield n
             for ch in ast.iter_child_nodes(n):
                 if not isinstance(ch, (ast.FunctionDef, ast.AsyncFunctionDef, ast.Lambda)):
@@ -142,12 +158,13 @@ class Scan:
     # ------------------------------------------------------------------ helpers
     def add(self, file, name, site, kind, key, after):
         k = (name, kind, site) if kind in ("inPlaceClassAttr", "inPlaceCacheEntry", "earlyBoundClassAttr",
-                                           "sharedReturnMutated") \
+                                           "sharedReturnMutated", "configCapture", "defaultArg", "inheritedMemo") \
             else (name, kind)   # one row per in-place write SITE
         if k in self.rows:
             r = self.rows[k]
             r["writtenAfterDef"] = r["writtenAfterDef"] or after
-            order = ["className", "otherClass", "partialArgs", "unknown", "classIdentity", "fieldIdentity", "globalConfig", "none"]
+            order = ["className", "otherClass", "partialArgs", "useValue", "unknown", "classIdentity", "fieldIdentity",
+                     "globalConfig", "none"]
             if order.index(key) < order.index(r["key"]):
                 r["key"], r["site"] = key, site
             elif not r["site"]:
@@ -252,6 +269,11 @@ class Scan:
         self.pass_cache_entry_mutation()
         self.pass_early_bound()
         self.pass_shared_return_mutation()
+        self.pass_field_instance_writes()
+        self.pass_default_args()
+        self.pass_closure_cells()
+        self.pass_config_capture()
+        self.pass_inherited_memo()
         return sorted(self.rows.values(), key=lambda r: (r["file"], r["name"], r["kind"], r["site"]))
 
     # ------------------------------------------------------------------ data/control dependencies
@@ -259,11 +281,32 @@ class Scan:
     def _names(e):
         return {n.id for n in ast.walk(e) if isinstance(n, ast.Name)} if e is not None else set()
 
-    def dependencies(self, f):
+    @staticmethod
+    def _free_names(e):
+        """names read by an expression, without the parameters of lambdas and the targets of comprehensions in it"""
+        if e is None:
+            return set()
+        bound = set()
+        for n in ast.walk(e):
+            if isinstance(n, ast.Lambda):
+                a = n.args
+                bound |= {x.arg for x in a.posonlyargs + a.args + a.kwonlyargs}
+                if a.vararg:
+                    bound.add(a.vararg.arg)
+                if a.kwarg:
+                    bound.add(a.kwarg.arg)
+            elif isinstance(n, ast.comprehension):
+                bound |= {m.id for m in ast.walk(n.target) if isinstance(m, ast.Name)}
+        return {n.id for n in ast.walk(e) if isinstance(n, ast.Name)} - bound
+
+    def dependencies(self, f, exc=False, attr_stores=None):
         """flow-insensitive dependencies of the local names of `f` (data + control), and every subscript
-        store with the control context it executes under"""
+        store with the control context it executes under.  `exc`: statements of a `try` body also depend on the
+        arguments of every call in that body (any call may raise and skip them); names are the FREE names of
+        an expression.  `attr_stores`: list that receives (target base expr, attr, value expr, ctrl) of every
+        attribute store / setattr call"""
         deps, stores = {}, []
-        names = self._names
+        names = self._free_names if exc else self._names
 
         def bind(t, src):
             if isinstance(t, ast.Name):
@@ -282,6 +325,15 @@ class Scan:
             for st in stmts:
                 if isinstance(st, (ast.FunctionDef, ast.AsyncFunctionDef, ast.ClassDef)):
                     continue
+                if attr_stores is not None:
+                    if isinstance(st, (ast.Assign, ast.AugAssign, ast.AnnAssign)) and getattr(st, "value", None) is not None:
+                        for t in (st.targets if isinstance(st, ast.Assign) else [st.target]):
+                            if isinstance(t, ast.Attribute):
+                                attr_stores.append((t.value, t.attr, st.value, set(ctrl)))
+                    if isinstance(st, ast.Expr) and isinstance(st.value, ast.Call) and isinstance(st.value.func, ast.Name) \
+                            and st.value.func.id == "setattr" and len(st.value.args) == 3:
+                        a = st.value.args
+                        attr_stores.append((a[0], self.const_str(a[1]) or "<dynamic>", a[2], set(ctrl)))
                 if isinstance(st, ast.Assign):
                     for t in st.targets:
                         bind(t, names(st.value) | ctrl)
@@ -307,10 +359,19 @@ class Scan:
                     visit(st.body, c2)
                     visit(st.orelse, c2)
                 elif isinstance(st, ast.Try):
-                    visit(st.body, ctrl)
+                    c2 = set(ctrl)
+                    if exc:
+                        # a statement of the try body runs only if no call of an EARLIER statement raised
+                        for b in st.body:
+                            visit([b], c2)
+                            for m in ast.walk(b):
+                                if isinstance(m, ast.Call):
+                                    c2 |= names(m)
+                    else:
+                        visit(st.body, c2)
                     for h in st.handlers:
-                        visit(h.body, ctrl)
-                    visit(st.orelse, ctrl)
+                        visit(h.body, c2)
+                    visit(st.orelse, c2)
                     visit(st.finalbody, ctrl)
                 elif isinstance(st, (ast.With, ast.AsyncWith)):
                     for it in st.items:
@@ -547,6 +608,389 @@ class Scan:
             for r in hits:
                 self.add(f.file, r, f.qual, "inPlaceCacheEntry", "classIdentity", True)
 
+
+    # ------------------------------------------------------------------ state on Field instances
+    def field_classes(self):
+        """names of the classes that (transitively, by base-class NAME) derive from `Field`"""
+        out = {"Field"}
+        changed = True
+        while changed:
+            changed = False
+            for cname, (_, cd) in self.classes.items():
+                if cname in out:
+                    continue
+                for b in cd.bases:
+                    bn = b.id if isinstance(b, ast.Name) else b.attr if isinstance(b, ast.Attribute) else None
+                    if isinstance(b, ast.Subscript):
+                        v = b.value
+                        bn = v.id if isinstance(v, ast.Name) else v.attr if isinstance(v, ast.Attribute) else None
+                    if bn in out:
+                        out.add(cname)
+                        changed = True
+                        break
+        return out
+
+    CONSTRUCTION_METHODS = {"__init__", "__new__", "__set_name__", "__init_subclass__", "__class_getitem__",
+                            "__getitem__", "__setstate__", "__deepcopy__", "__copy__", "__reduce__"}
+
+    USE_METHODS = {"__set__", "__get__", "__delete__", "serialize", "deserialize", "validate", "_validate",
+                   "__call__", "validate_size", "validate_wrapper"}
+    USE_PARAMS = {"instance", "value", "val", "values", "owner", "obj", "input_data", "data", "struct", "structure"}
+
+    def data_closure(self, f):
+        """data-only (no control) dependencies of the locals of `f`"""
+        deps = {}
+
+        def bind(t, src):
+            if isinstance(t, ast.Name):
+                deps.setdefault(t.id, set()).update(src)
+            elif isinstance(t, (ast.Tuple, ast.List)):
+                for x in t.elts:
+                    bind(x, src)
+        for n in f.body_nodes(strict=True):
+            if isinstance(n, ast.Assign):
+                for t in n.targets:
+                    bind(t, self._free_names(n.value))
+            elif isinstance(n, (ast.For, ast.AsyncFor)):
+                bind(n.target, self._free_names(n.iter))
+            elif isinstance(n, ast.comprehension):
+                bind(n.target, self._free_names(n.iter))
+
+        def closure(start):
+            seen, todo = set(), list(start)
+            while todo:
+                x = todo.pop()
+                if x in seen:
+                    continue
+                seen.add(x)
+                todo.extend(deps.get(x, ()))
+            return seen
+        return closure
+
+    def loop_top_rebinds(self, f):
+        """(loop variable, attribute) pairs that are rebound by the FIRST statement of the loop body that binds the
+        variable: per-call scratch state (written before it is read in every iteration)"""
+        out = set()
+        for n in f.body_nodes(strict=True):
+            if isinstance(n, (ast.For, ast.AsyncFor)) and n.body:
+                lv = {m.id for m in ast.walk(n.target) if isinstance(m, ast.Name)}
+                st = n.body[0]
+                if isinstance(st, ast.Expr) and isinstance(st.value, ast.Call) and isinstance(st.value.func, ast.Name) \
+                        and st.value.func.id == "setattr" and len(st.value.args) == 3 \
+                        and isinstance(st.value.args[0], ast.Name) and st.value.args[0].id in lv:
+                    out.add((st.value.args[0].id, self.const_str(st.value.args[1]) or "<dynamic>"))
+                if isinstance(st, ast.Assign):
+                    for t in st.targets:
+                        if isinstance(t, ast.Attribute) and isinstance(t.value, ast.Name) and t.value.id in lv:
+                            out.add((t.value.id, t.attr))
+        return out
+
+    def pass_field_instance_writes(self):
+        """a Field object belongs to a class DEFINITION and is shared by every class that inherits the field;
+        what a method of the descriptor / serializer protocol stores on it (or on one of its option / item
+        fields) must not depend on what the method was called with"""
+        fcls = self.field_classes()
+        for f in self.funcs:
+            if f.cls not in fcls or f.name in self.CONSTRUCTION_METHODS or f.parent is not None:
+                continue
+            if not f.pos or f.pos[0] != "self":
+                continue
+            attr_stores = []
+            closure, _ = self.dependencies(f, exc=True, attr_stores=attr_stores)
+            dclosure = self.data_closure(f)
+            rebinds = self.loop_top_rebinds(f)
+            params = set(f.params) - {"self"}
+            use_params = params if f.name in self.USE_METHODS else (params & self.USE_PARAMS)
+            for base, attr, value, ctrl in attr_stores:
+                bnames = self._free_names(base)
+                if not bnames:
+                    continue
+                is_self = isinstance(base, ast.Name) and base.id == "self"
+                # the object written is the field itself or something reached from it by DATA flow (an option, an item)
+                if not is_self:
+                    src = dclosure(bnames)
+                    if "self" not in src or any(
+                            isinstance(m, ast.Call) and isinstance(m.func, ast.Name) and m.func.id[:1].isupper()
+                            for nm in src for m in [self.local_value(f, nm)] if m is not None):
+                        continue
+                vdeps = closure(self._free_names(value) | ctrl) & use_params
+                if vdeps and not is_self and isinstance(base, ast.Name) and (base.id, attr) in rebinds:
+                    vdeps = set()        # rebound at the top of every iteration before it is used
+                name = "%s.%s" % (f.cls if is_self else "<field of %s>" % f.cls, attr)
+                self.add(f.file, name, f.qual, "fieldAttrWrite", "useValue" if vdeps else "fieldIdentity", True)
+
+    # ------------------------------------------------------------------ mutable default arguments
+    def pass_default_args(self):
+        """`def f(x, acc=[])`: the default object is created once; a function that mutates, returns or stores it
+        carries state from one call to the next"""
+        for f in self.funcs:
+            a = f.node.args
+            pos = a.posonlyargs + a.args
+            pairs = list(zip(pos[len(pos) - len(a.defaults):], a.defaults)) + \
+                [(x, d) for x, d in zip(a.kwonlyargs, a.kw_defaults) if d is not None]
+            for arg, d in pairs:
+                if not mutable_kind(d):
+                    continue
+                p = arg.arg
+                escapes = False
+                for n in f.body_nodes():
+                    if isinstance(n, ast.Call) and isinstance(n.func, ast.Attribute) and n.func.attr in MUTATORS \
+                            and isinstance(n.func.value, ast.Name) and n.func.value.id == p:
+                        escapes = True
+                    if isinstance(n, (ast.Assign, ast.AugAssign)):
+                        for t in (n.targets if isinstance(n, ast.Assign) else [n.target]):
+                            if isinstance(t, ast.Subscript) and isinstance(t.value, ast.Name) and t.value.id == p:
+                                escapes = True
+                            if isinstance(t, (ast.Attribute, ast.Subscript)) and isinstance(n.value, ast.Name) \
+                                    and n.value.id == p:
+                                escapes = True          # stored somewhere that outlives the call
+                    if isinstance(n, ast.Return) and isinstance(n.value, ast.Name) and n.value.id == p:
+                        escapes = True
+                    if isinstance(n, ast.Delete):
+                        for t in n.targets:
+                            if isinstance(t, ast.Subscript) and isinstance(t.value, ast.Name) and t.value.id == p:
+                                escapes = True
+                if escapes:
+                    self.add(f.file, "%s(%s=)" % (f.qual, p), f.qual, "defaultArg", "unknown", True)
+
+    # ------------------------------------------------------------------ closure cells
+    def pass_closure_cells(self):
+        """a mutable local of an enclosing function that a nested function writes to lives as long as the nested
+        function does (the memo of a caching decorator applied at import time is process-wide state);
+        `nonlocal x` rebinding likewise"""
+        for f in self.funcs:
+            nested = [g for g in self.funcs if g.parent is f]
+            if not nested:
+                continue
+            cells = {}
+            escaping = set()       # nested functions that outlive the call: returned, stored, installed
+            for n in f.body_nodes(strict=True):
+                if isinstance(n, (ast.Assign, ast.AnnAssign)):
+                    tgt, val = self._assign(n)
+                    if tgt and val is not None and mutable_kind(val):
+                        cells[tgt] = mutable_kind(val)
+                vals = []
+                if isinstance(n, ast.Return) and n.value is not None:
+                    vals.append(n.value)
+                if isinstance(n, ast.Assign) and any(isinstance(t, (ast.Attribute, ast.Subscript)) for t in n.targets):
+                    vals.append(n.value)
+                if isinstance(n, ast.Call) and isinstance(n.func, ast.Name) and n.func.id == "setattr":
+                    vals.extend(n.args[2:])
+                for v in vals:
+                    escaping |= self._names(v)
+            # a local that aliases a nested function (wrapper = wraps(f)(inner)) escapes with it
+            for n in f.body_nodes(strict=True):
+                if isinstance(n, ast.Assign) and len(n.targets) == 1 and isinstance(n.targets[0], ast.Name) \
+                        and n.targets[0].id in escaping:
+                    escaping |= self._names(n.value)
+            for g in nested:
+                if g.name not in escaping:
+                    continue
+                gparams = set(g.params)
+                glocals = {t.id for n in g.body_nodes(strict=True) if isinstance(n, ast.Assign)
+                           for t in n.targets if isinstance(t, ast.Name)}
+                for n in g.body_nodes(strict=True):
+                    if isinstance(n, ast.Nonlocal):
+                        for name in n.names:
+                            self.add(f.file, "%s.%s" % (f.qual, name), g.qual, "closureCell", "unknown", True)
+                    ref, key = None, None
+                    if isinstance(n, (ast.Assign, ast.AugAssign)):
+                        for t in (n.targets if isinstance(n, ast.Assign) else [n.target]):
+                            if isinstance(t, ast.Subscript) and isinstance(t.value, ast.Name) \
+                                    and t.value.id in cells and t.value.id not in gparams | glocals:
+                                ref, key = t.value.id, self.classify_key(g, t.slice)
+                    if isinstance(n, ast.Call) and isinstance(n.func, ast.Attribute) and n.func.attr in MUTATORS \
+                            and isinstance(n.func.value, ast.Name) and n.func.value.id in cells \
+                            and n.func.value.id not in gparams | glocals:
+                        ref = n.func.value.id
+                        key = "none"
+                        if n.func.attr in ("setdefault", "pop", "__setitem__", "__delitem__") and n.args:
+                            key = self.classify_key(g, n.args[0])
+                    if ref:
+                        if cells[ref] != "dict" and key != "className":
+                            key = "none"
+                        self.add(f.file, "%s.%s" % (f.qual, ref), g.qual, "closureCell", key, True)
+
+    # ------------------------------------------------------------------ configuration captured at use time
+    def config_names(self):
+        return {r["name"] for r in self.rows.values() if r["kind"] == "config"}
+
+    def pass_config_capture(self):
+        """a function that installs something on a class after its definition (`cls.x = …`) or stores into a
+        registry, and computes what it installs from a global configuration attribute, freezes the value the
+        configuration had at that moment into per-class state: restoring the configuration does not restore
+        the class"""
+        cfg = self.config_names()
+        if not cfg:
+            return
+
+        def cfg_reads(e):
+            out = set()
+            for n in ast.walk(e):
+                if isinstance(n, ast.Attribute) and isinstance(n.value, ast.Name) \
+                        and (n.value.id + "." + n.attr) in cfg and isinstance(n.ctx, ast.Load):
+                    out.add(n.value.id + "." + n.attr)
+            return out
+
+        for f in self.funcs:
+            if self.is_definition_time(f) or f.name.startswith("set_"):
+                continue
+            reads = {}       # local name -> config attrs it was computed from
+            direct = set()
+            for n in f.body_nodes():
+                if isinstance(n, ast.Assign):
+                    r = cfg_reads(n.value)
+                    if r:
+                        for t in n.targets:
+                            if isinstance(t, ast.Name):
+                                reads.setdefault(t.id, set()).update(r)
+            if not reads and not any(cfg_reads(d) for d in f.node.args.defaults + [x for x in f.node.args.kw_defaults if x]):
+                # configuration read directly inside the installed expression is handled below
+                pass
+            attr_stores = []
+            closure, stores = self.dependencies(f, exc=False, attr_stores=attr_stores)
+            dclosure = self.data_closure(f)     # DATA flow only: the flow-insensitive control closure of a long
+                                                # function relates everything to everything
+            nested = [n for n in ast.walk(f.node)
+                      if n is not f.node and isinstance(n, (ast.FunctionDef, ast.AsyncFunctionDef, ast.Lambda))]
+
+            def captured_cfg(value, ctrl=()):
+                """config attributes the installed value depends on: read in the expression itself, through a
+                local computed from configuration (data or control), or captured by a nested function that is
+                the value"""
+                out = set(cfg_reads(value))
+                vnames = dclosure(self._names(value) | set(ctrl))
+                for g in nested:
+                    gname = getattr(g, "name", None)
+                    if gname and gname in vnames:
+                        gp = {a.arg for a in g.args.args + g.args.kwonlyargs + g.args.posonlyargs}
+                        for m in ast.walk(g):
+                            if isinstance(m, ast.Name) and isinstance(m.ctx, ast.Load) and m.id not in gp:
+                                vnames |= dclosure({m.id})
+                for nm in vnames:
+                    out |= reads.get(nm, set())
+                return out
+
+            for base, attr, value, ctrl in attr_stores:
+                if not self.is_class_expr(f, base):
+                    continue
+                for c in sorted(captured_cfg(value, ctrl)):
+                    self.add(f.file, "cls.%s<-%s" % (attr, c), f.qual, "configCapture", "classIdentity", True)
+            for t, value, ctrl in stores:
+                ref = self.registry_ref(t.value)
+                if not ref:
+                    continue
+                for c in sorted(captured_cfg(value, ctrl)):
+                    self.add(f.file, "%s<-%s" % (ref, c), f.qual, "configCapture", "classIdentity", True)
+            # a call, under configuration-dependent control or with configuration-derived arguments, of a helper
+            # that writes an attribute onto the class it is given
+            for call, ctrl in self.calls_with_ctrl(f):
+                cn = call.func.id if isinstance(call.func, ast.Name) else \
+                    call.func.attr if isinstance(call.func, ast.Attribute) else None
+                for g in self.by_name.get(cn, []):
+                    if g is f:
+                        continue
+                    wattrs = self.class_param_writes(g)
+                    if not wattrs:
+                        continue
+                    if not any(self.is_class_expr(f, a) for a in call.args):
+                        continue
+                    direct = dclosure(self._names(call) | set(ctrl))
+                    hit = set(cfg_reads(call))
+                    for nm in direct:
+                        hit |= reads.get(nm, set())
+                    for c in sorted(hit):
+                        for attr in sorted(wattrs):
+                            self.add(f.file, "cls.%s<-%s" % (attr, c), f.qual, "configCapture", "classIdentity", True)
+
+    def pass_inherited_memo(self):
+        """a memo kept as a class attribute — the function returns what it reads with `getattr(cls, X, …)` /
+        `cls.X` and stores a computed object with `cls.X = …` / `setattr(cls, X, …)` — is looked up through the
+        MRO: a subclass finds the entry stored on its base class.  Reading `cls.__dict__` is identity-keyed."""
+        for f in self.funcs:
+            if self.is_definition_time(f):
+                continue
+            written = {}
+            for n in f.body_nodes(strict=True):
+                if isinstance(n, ast.Assign):
+                    for t in n.targets:
+                        if isinstance(t, ast.Attribute) and self.is_class_expr(f, t.value) == "own" \
+                                and not isinstance(n.value, ast.Constant):
+                            written[t.attr] = n.value
+                if isinstance(n, ast.Call) and isinstance(n.func, ast.Name) and n.func.id == "setattr" \
+                        and len(n.args) == 3 and self.is_class_expr(f, n.args[0]) == "own" \
+                        and not isinstance(n.args[2], ast.Constant):
+                    a = self.const_str(n.args[1])
+                    if a:
+                        written[a] = n.args[2]
+            if not written:
+                continue
+            readers = {}      # local name -> attr it was read from (through the MRO)
+            for n in f.body_nodes(strict=True):
+                if isinstance(n, ast.Assign) and len(n.targets) == 1 and isinstance(n.targets[0], ast.Name):
+                    v = n.value
+                    a = None
+                    if isinstance(v, ast.Call) and isinstance(v.func, ast.Name) and v.func.id == "getattr" \
+                            and len(v.args) >= 2 and self.is_class_expr(f, v.args[0]) == "own":
+                        a = self.const_str(v.args[1])
+                    elif isinstance(v, ast.Attribute) and self.is_class_expr(f, v.value) == "own":
+                        a = v.attr
+                    if a in written:
+                        readers[n.targets[0].id] = a
+            for n in f.body_nodes(strict=True):
+                if isinstance(n, ast.Return) and n.value is not None:
+                    v = n.value
+                    a = readers.get(v.id) if isinstance(v, ast.Name) else None
+                    if a is None and isinstance(v, ast.Call) and isinstance(v.func, ast.Name) and v.func.id == "getattr" \
+                            and len(v.args) >= 2 and self.is_class_expr(f, v.args[0]) == "own":
+                        a = self.const_str(v.args[1])
+                    if a is None and isinstance(v, ast.Attribute) and self.is_class_expr(f, v.value) == "own":
+                        a = v.attr
+                    if a in written:
+                        self.add(f.file, "cls." + a, f.qual, "inheritedMemo", "otherClass", True)
+
+    def class_param_writes(self, g):
+        """attributes that `g` writes onto a class it receives as a parameter"""
+        out = set()
+        for n in g.body_nodes(strict=True):
+            if isinstance(n, ast.Assign):
+                for t in n.targets:
+                    if isinstance(t, ast.Attribute) and self.is_class_expr(g, t.value) == "own":
+                        out.add(t.attr)
+            if isinstance(n, ast.Call) and isinstance(n.func, ast.Name) and n.func.id == "setattr" and len(n.args) >= 2 \
+                    and self.is_class_expr(g, n.args[0]) == "own":
+                out.add(self.const_str(n.args[1]) or "<dynamic>")
+        return out
+
+    def calls_with_ctrl(self, f):
+        """(call node, names the control context depends on) for the expression-statement calls of `f`"""
+        out = []
+
+        def visit(stmts, ctrl):
+            for st in stmts:
+                if isinstance(st, (ast.FunctionDef, ast.AsyncFunctionDef, ast.ClassDef)):
+                    continue
+                if isinstance(st, ast.Expr) and isinstance(st.value, ast.Call):
+                    out.append((st.value, set(ctrl)))
+                elif isinstance(st, ast.If):
+                    c2 = ctrl | self._names(st.test)
+                    visit(st.body, c2)
+                    visit(st.orelse, c2)
+                elif isinstance(st, (ast.For, ast.AsyncFor, ast.While)):
+                    c2 = ctrl | self._names(st.iter if not isinstance(st, ast.While) else st.test)
+                    visit(st.body, c2)
+                    visit(st.orelse, c2)
+                elif isinstance(st, ast.Try):
+                    visit(st.body, ctrl)
+                    for h in st.handlers:
+                        visit(h.body, ctrl)
+                    visit(st.orelse, ctrl)
+                    visit(st.finalbody, ctrl)
+                elif isinstance(st, (ast.With, ast.AsyncWith)):
+                    visit(st.body, ctrl)
+        visit(f.node.body, set())
+        return out
+
     def registry_ref(self, e):
         """name of the module-/class-level object an expression refers to, if any"""
         if isinstance(e, ast.Name) and e.id in self.module_objs:
@@ -594,8 +1038,11 @@ class Scan:
                             ref = t.value.id + "." + t.attr
                             if isinstance(n, ast.AugAssign):
                                 self.add(f.file, ref, f.qual, "counter", "none", after)
-                            else:
+                            elif f.name.startswith("set_") or not after:
                                 self.add(f.file, ref, f.qual, "config", "globalConfig", after)
+                            else:
+                                # a class-level switch is configuration only while explicit setters write it
+                                self.add(f.file, ref, f.qual, "config", "unknown", after)
                 elif isinstance(n, ast.Delete):
                     for t in n.targets:
                         if isinstance(t, ast.Subscript):
